@@ -59,6 +59,7 @@
 #include <gmpxx.h>
 #include "sx.h"
 #define double SymReal
+#define float SymReal
 #define volatile
 #ifdef SX_WITH_GAMA
 // the Golub-Reinsch iteration cannot run in exact arithmetic: declare the contract stub before any
